@@ -467,9 +467,22 @@ func (x *Exec) callbackFor(p *ssa.Parameter) *Effects {
 }
 
 func (x *Exec) call(st *State, i *ssa.Call) {
+	// pre(...) in a ghost update is the state just before the call
+	x.ghostPre = nil
+	if x.fc != nil && i.Parent() == x.fn {
+		if name := ghostCallName(&i.Call); name != "" {
+			for _, g := range x.fc.Ghosts {
+				if g.On[name] != nil {
+					x.ghostPre = st.clone()
+					break
+				}
+			}
+		}
+	}
 	res := x.doCall(st, &i.Call, i, i.Pos())
 	x.regs[i] = res
 	x.ghostAfterCall(st, &i.Call, i.Parent(), i.Pos(), res)
+	x.ghostPre = nil
 }
 
 // ghostAfterCall updates the ghost variables of the function under verification that follow calls
@@ -487,10 +500,15 @@ func (x *Exec) ghostAfterCall(st *State, call *ssa.CallCommon, parent *ssa.Funct
 		env := x.envFor(x.fn, st, x.entry, nil)
 		env.locals = true
 		env.pos = pos
+		env.pre = x.ghostPre
 		x.bindResults(env, nil, call.Signature().Results(), res)
 		if call.IsInvoke() {
 			// the receiver of an interface method call, as recv
 			env.names["recv"] = TV{x.val(st, call.Value), call.Value.Type()}
+		}
+		// the arguments of the call by position (for a method the receiver is arg0)
+		for k, a := range call.Args {
+			env.names[fmt.Sprintf("arg%d", k)] = TV{x.val(st, a), a.Type()}
 		}
 		if ld, ok := call.Value.(*ssa.UnOp); ok {
 			// a call through a function-valued field: its arguments under the names of the field's contract
@@ -505,8 +523,28 @@ func (x *Exec) ghostAfterCall(st *State, call *ssa.CallCommon, parent *ssa.Funct
 				}
 			}
 		}
-		st.ghost[g.Name] = x.scalar(x.eval(e, env).V)
+		st.ghost[g.Name] = x.ghostUpdate(g, e, env, st, pos)
 	}
+}
+
+// ghostUpdate: the new value of a ghost variable after a call. Where the update cannot be read (it
+// names a local of the function that is not declared at this call site) the ghost becomes unknown
+// there: nothing can be proved from it on such a path, and nothing else is affected.
+func (x *Exec) ghostUpdate(g *GhostDecl, e *CE, env *Env, st *State, pos token.Pos) (t *Term) {
+	defer func() {
+		if r := recover(); r != nil {
+			if _, isU := r.(unsupportedErr); !isU {
+				panic(r)
+			}
+			srt := SInt
+			if old, has := st.ghost[g.Name]; has {
+				srt = old.sort
+			}
+			t = x.c.Fresh("gunk_"+g.Name, srt)
+			x.ledger[fmt.Sprintf("ghost %s is unknown after the call at %s (its update is not readable there: %v)", g.Name, x.pos(pos), r)] = true
+		}
+	}()
+	return x.scalar(x.eval(e, env).V)
 }
 
 // ghostCallName: the name under which ghost updates ("ghost g on <name> := ...") refer to a call: the
